@@ -79,6 +79,7 @@ type Case struct {
 	Steps     []Step `json:"steps"`
 	// Race != nil: not a schedule but a run of the concurrent engine (race_test.go) with these parameters
 	Race *RaceParams `json:"race,omitempty"`
+	Chan *ChanParams `json:"chan,omitempty"` // channel part (channel_test.go)
 }
 
 // ---------- pools / oracle tables ----------
@@ -609,7 +610,7 @@ func (r *runner) exec(k int) {
 	case "create": // a silence created through this instance's API, its matcher an alternation of many host names
 		sil := &pb.Silence{StartsAt: timestamppb.New(time.Unix(0, now)), EndsAt: timestamppb.New(time.Unix(0, now+int64(time.Hour))),
 			MatcherSets: []*pb.MatcherSet{{Matchers: []*pb.Matcher{{Type: pb.Matcher_REGEXP, Name: "h", Pattern: hostPattern(stp.Hosts)}}}},
-			CreatedBy: "local", Comment: fmt.Sprintf("created at step %d", k)}
+			CreatedBy:   "local", Comment: fmt.Sprintf("created at step %d", k)}
 		inTerm := r.coqSil(sil)
 		i.bcast = nil
 		err := i.s.Set(ctx, sil)
@@ -1092,6 +1093,8 @@ func TestCheck(t *testing.T) {
 		}
 		if c.Race != nil {
 			judgeRace(t, run, *c.Race)
+		} else if c.Chan != nil {
+			judgeChannel(t, run, *c.Chan)
 		} else {
 			finish(&c, "replay")
 		}
@@ -1133,6 +1136,8 @@ func TestCheck(t *testing.T) {
 	if env.Replay == "" {
 		// concurrent engine: real Merge / Set / Expire racing on all cores, judged against the order-independent result
 		judgeRace(t, run, racePlan(env))
+		// channel part: local edits made back-to-back through the real cluster.Channel and gossip queue reach the peer
+		judgeChannel(t, run, ChanParams{Seed: env.Seed, Cases: env.N(12, 5)})
 	}
 	if err := run.Finish("two real silence.Silences instances; 2-8 versions over 1-3 ids with distinct update times; all delivery orders for small sets, random schedules of single / batched / duplicated deliveries, re-broadcast forwarding, full-state exchange, re-merge of own state, local Set/Expire, GC, merge instants at ExpiresAt -1/0/+1 ns; after every op the content (Query by ids), the bookkeeping (st/mi/vi/version) and the broadcasts are compared; ; plus a judged concurrent engine outside synctest (goroutines merging 2-3 versions of each of several hundred ids at once in large / small / single-entry messages while others are expired / edited locally; afterwards every id holds its newest version); non-trivial = at least one merge changed the state"); err != nil {
 		t.Fatal(err)
